@@ -31,6 +31,7 @@ import (
 
 	"github.com/refraction-networking/conjure/internal/conjurepath"
 	"github.com/refraction-networking/conjure/pkg/core"
+	"github.com/refraction-networking/conjure/pkg/station/geoip"
 	cj "github.com/refraction-networking/conjure/pkg/station/lib"
 	"github.com/refraction-networking/conjure/pkg/station/log"
 	"github.com/refraction-networking/conjure/pkg/transports"
@@ -215,13 +216,15 @@ func (c *vtConn) RemoteAddr() net.Addr             { return c.remote }
 // (the shape obfs4's server handshake has: WrapConnection does I/O on the connection and returns its error)
 type vtTransport struct{}
 
-func (vtTransport) Name() string                                    { return "VerifFaulty" }
-func (vtTransport) LogPrefix() string                               { return "VERIF" }
-func (vtTransport) GetIdentifier(r transports.Registration) string { return "verif-" + string(r.SharedSecret()) }
-func (vtTransport) GetProto() pb.IPProto                            { return pb.IPProto_Tcp }
-func (vtTransport) GetDstPort(uint, []byte, any) (uint16, error)    { return 443, nil }
-func (vtTransport) ParseParams(uint, *anypb.Any) (any, error)       { return nil, nil }
-func (vtTransport) ParamStrings(any) []string                       { return nil }
+func (vtTransport) Name() string      { return "VerifFaulty" }
+func (vtTransport) LogPrefix() string { return "VERIF" }
+func (vtTransport) GetIdentifier(r transports.Registration) string {
+	return "verif-" + string(r.SharedSecret())
+}
+func (vtTransport) GetProto() pb.IPProto                         { return pb.IPProto_Tcp }
+func (vtTransport) GetDstPort(uint, []byte, any) (uint16, error) { return 443, nil }
+func (vtTransport) ParseParams(uint, *anypb.Any) (any, error)    { return nil, nil }
+func (vtTransport) ParamStrings(any) []string                    { return nil }
 func (vtTransport) WrapConnection(data *bytes.Buffer, c net.Conn, dst net.IP, rm transports.RegManager) (transports.Registration, net.Conn, error) {
 	vc, ok := c.(*vtConn)
 	if !ok || !vc.wrapErr {
@@ -544,3 +547,261 @@ func TestVerifTaintCases(t *testing.T) {
 
 var _ = errors.New
 var _ = hex.EncodeToString
+
+// ---------------------------------------------------------------- pre-classification sites (accept.File, geoip.CC, geoip.ASN)
+//
+//   TestVerifTaintPre   the cases of spec/LogTaint whose site lies before classification starts:
+//     accept.File   the real handleNewConn on a real loopback *net.TCPConn while the process's descriptor limit is 1, so
+//                   that clientConn.File() fails the way it does on a station that ran out of descriptors (the error is
+//                   the network stack's own *net.OpError naming both endpoints);
+//     geoip.CC/ASN  the real handleNewTCPConn with the REAL MaxMind reader (geoip.New) over database files written by this
+//                   driver: an IPv4-only country database (every lookup of an IPv6 client fails with the library's own
+//                   error, which formats the address), resp. an IPv6 country database plus an IPv4-only ASN database.
+
+func vtMMCtrl(typ, size int) []byte {
+	if size >= 29 {
+		panic("mmdb writer: size >= 29 not needed")
+	}
+	if typ <= 7 {
+		return []byte{byte(typ<<5 | size)}
+	}
+	return []byte{byte(size), byte(typ - 7)}
+}
+func vtMMStr(s string) []byte { return append(vtMMCtrl(2, len(s)), s...) }
+func vtMMUint(typ int, v uint64) []byte {
+	var b []byte
+	for v > 0 {
+		b = append([]byte{byte(v)}, b...)
+		v >>= 8
+	}
+	return append(vtMMCtrl(typ, len(b)), b...)
+}
+func vtMMMap(kv ...[]byte) []byte {
+	out := vtMMCtrl(7, len(kv)/2)
+	for _, x := range kv {
+		out = append(out, x...)
+	}
+	return out
+}
+
+// vtWriteMMDB writes a minimal MaxMind DB: one search-tree node whose two records both lead to the single data record
+// (data != nil: every address of the database's IP version maps to it) or to "not found" (data == nil).
+func vtWriteMMDB(path, dbType string, ipVersion int, data []byte) error {
+	const nodeCount = 1
+	rec := uint32(nodeCount) // not found
+	if data != nil {
+		rec = nodeCount + 16 // data pointer: node_count + 16 + offset 0
+	}
+	r3 := []byte{byte(rec >> 16), byte(rec >> 8), byte(rec)}
+	var f []byte
+	f = append(f, r3...)
+	f = append(f, r3...)
+	f = append(f, make([]byte, 16)...)
+	f = append(f, data...)
+	f = append(f, []byte("\xab\xcd\xefMaxMind.com")...)
+	meta := vtMMMap(
+		vtMMStr("binary_format_major_version"), vtMMUint(5, 2),
+		vtMMStr("binary_format_minor_version"), vtMMUint(5, 0),
+		vtMMStr("build_epoch"), vtMMUint(9, 1700000000),
+		vtMMStr("database_type"), vtMMStr(dbType),
+		vtMMStr("description"), vtMMMap(vtMMStr("en"), vtMMStr("verif")),
+		vtMMStr("ip_version"), vtMMUint(5, uint64(ipVersion)),
+		vtMMStr("languages"), append(vtMMCtrl(11, 1), vtMMStr("en")...),
+		vtMMStr("node_count"), vtMMUint(6, nodeCount),
+		vtMMStr("record_size"), vtMMUint(5, 24),
+	)
+	f = append(f, meta...)
+	return os.WriteFile(path, f, 0o644)
+}
+
+func TestVerifTaintPre(t *testing.T) {
+	out := vOpenOut(t)
+	defer out.Close()
+	var cases []vtCase
+	vReadLines(t, func(line []byte) {
+		var c vtCase
+		if err := json.Unmarshal(line, &c); err != nil {
+			t.Fatalf("bad case: %v", err)
+		}
+		cases = append(cases, c)
+	})
+	w := vtSetup(t)
+	defer w.teardown()
+	dir := t.TempDir()
+	cc4, cc6, asn4 := filepath.Join(dir, "cc4.mmdb"), filepath.Join(dir, "cc6.mmdb"), filepath.Join(dir, "asn4.mmdb")
+	country := vtMMMap(vtMMStr("country"), vtMMMap(vtMMStr("iso_code"), vtMMStr("ZZ")))
+	if err := vtWriteMMDB(cc4, "GeoLite2-Country", 4, nil); err != nil {
+		t.Fatal(err)
+	}
+	if err := vtWriteMMDB(cc6, "GeoLite2-Country", 6, country); err != nil {
+		t.Fatal(err)
+	}
+	if err := vtWriteMMDB(asn4, "GeoLite2-ASN", 4, nil); err != nil {
+		t.Fatal(err)
+	}
+	geoFailCC, err := geoip.New(&geoip.DBConfig{CCDBPath: cc4, ASNDBPath: asn4})
+	if err != nil {
+		t.Fatalf("geoip.New (IPv4-only country db): %v", err)
+	}
+	geoFailASN, err := geoip.New(&geoip.DBConfig{CCDBPath: cc6, ASNDBPath: asn4})
+	if err != nil {
+		t.Fatalf("geoip.New (IPv6 country db, IPv4-only ASN db): %v", err)
+	}
+	// the databases behave as intended: a v4 client resolves without error, the v6 client fails exactly at the site
+	if _, err := geoFailCC.CC(vtAddrs["v4"].IP); err != nil {
+		t.Fatalf("IPv4 lookup in the IPv4-only database fails: %v", err)
+	}
+	if cc, err := geoFailASN.CC(vtAddrs["v6"].IP); err != nil || cc != "ZZ" {
+		t.Fatalf("IPv6 country lookup: %q %v", cc, err)
+	}
+	selfOK := 0
+	if _, err := geoFailCC.CC(vtAddrs["v6"].IP); err != nil {
+		selfOK++
+	}
+	if _, err := geoFailASN.ASN(vtAddrs["v6"].IP); err != nil {
+		selfOK++
+	}
+
+	for idx, cs := range cases {
+		res := map[string]any{"kind": "result", "idx": idx, "case": cs}
+		buf := &vtSyncBuf{}
+		switch cs.Site {
+		case "geoip.CC", "geoip.ASN":
+			if cs.Fam != "v6" {
+				res["skipped"] = true
+				out.Emit(res)
+				continue
+			}
+			w.rm.GeoIP = geoFailCC
+			if cs.Site == "geoip.ASN" {
+				w.rm.GeoIP = geoFailASN
+			}
+			c := vtNewConn(&net.TCPAddr{IP: net.ParseIP("192.0.2.10"), Port: 443}, vtAddrs[cs.Fam])
+			path := filepath.Join(w.dir, fmt.Sprintf("pre_%d.log", idx))
+			f, err := os.Create(path)
+			if err != nil {
+				t.Fatal(err)
+			}
+			os.Stdout = f
+			logClientIP = cs.LogIP
+			done := make(chan struct{})
+			go func() {
+				defer close(done)
+				defer func() {
+					if r := recover(); r != nil {
+						res["panic"] = fmt.Sprint(r)
+					}
+				}()
+				w.cm.handleNewTCPConn(w.rm, c, w.noRegDst)
+			}()
+			select {
+			case <-done:
+				res["returned"] = true
+			case <-time.After(15 * time.Second):
+				res["returned"] = false
+			}
+			os.Stdout = w.global
+			logClientIP = false
+			w.rm.GeoIP = &MockGeoIP{}
+			c.Close()
+			f.Close()
+			b, _ := os.ReadFile(path)
+			buf.Write(b)
+			hit, line := vtScan(buf.String(), cs.Fam)
+			res["addr_seen"], res["line"], res["bytes"] = hit, line, len(b)
+			res["reached"] = strings.Contains(buf.String(), "Failed to get")
+		case "accept.File":
+			network, laddr, caddr := "tcp4", "127.0.0.1:0", "127.0.0.77:0"
+			switch cs.Fam {
+			case "v6":
+				network, laddr, caddr = "tcp6", "[::1]:0", "[::1]:0"
+			case "v4mapped":
+				network, laddr = "tcp", "[::]:0" // dual-stack listener: the IPv4 client arrives as ::ffff:127.0.0.77
+			}
+			ln, err := net.Listen(network, laddr)
+			if err != nil {
+				res["skipped"], res["why"] = true, err.Error()
+				out.Emit(res)
+				continue
+			}
+			la, _ := net.ResolveTCPAddr("tcp", caddr)
+			target := ln.Addr().String()
+			if cs.Fam == "v4mapped" {
+				target = fmt.Sprintf("127.0.0.1:%d", ln.Addr().(*net.TCPAddr).Port)
+			}
+			cl, err := (&net.Dialer{LocalAddr: la, Timeout: 3 * time.Second}).Dial("tcp", target)
+			if err != nil {
+				ln.Close()
+				res["skipped"], res["why"] = true, err.Error()
+				out.Emit(res)
+				continue
+			}
+			sc, err := ln.Accept()
+			if err != nil {
+				t.Fatal(err)
+			}
+			clientEP := cl.LocalAddr().String() // the client's endpoint as the station sees it
+			forms := []string{clientEP}
+			if cs.Fam != "v6" {
+				forms = append(forms, "127.0.0.77")
+			}
+			old := sharedLogger
+			sharedLogger = log.New(buf, "[INIT] ", golog.Ldate|golog.Lmicroseconds)
+			logClientIP = cs.LogIP
+			var lim, low syscall.Rlimit
+			_ = syscall.Getrlimit(syscall.RLIMIT_NOFILE, &lim)
+			low = lim
+			low.Cur = 1 // descriptor 0 is open: no new descriptor can be allocated
+			done := make(chan struct{})
+			if err := syscall.Setrlimit(syscall.RLIMIT_NOFILE, &low); err != nil {
+				t.Fatal(err)
+			}
+			go func() {
+				defer close(done)
+				defer func() {
+					if r := recover(); r != nil {
+						res["panic"] = fmt.Sprint(r)
+					}
+				}()
+				w.cm.handleNewConn(w.rm, sc.(*net.TCPConn))
+			}()
+			select {
+			case <-done:
+				res["returned"] = true
+			case <-time.After(15 * time.Second):
+				res["returned"] = false
+			}
+			_ = syscall.Setrlimit(syscall.RLIMIT_NOFILE, &lim)
+			sharedLogger = old
+			logClientIP = false
+			cl.Close()
+			ln.Close()
+			text := buf.String()
+			hit, line := false, ""
+			for _, f := range forms {
+				if i := strings.Index(text, f); i >= 0 {
+					hit, line = true, strings.TrimSpace(text)
+					break
+				}
+			}
+			res["addr_seen"], res["line"], res["bytes"] = hit, line, len(text)
+			res["reached"] = strings.Contains(text, "failed to get file descriptor")
+		default:
+			res["skipped"] = true
+		}
+		out.Emit(res)
+	}
+	out.Emit(map[string]any{"kind": "summary", "cases": len(cases), "canary_missed": []string{}, "geoip_selftest": selfOK})
+}
+
+type vtSyncBuf struct {
+	mu sync.Mutex
+	b  bytes.Buffer
+}
+
+func (s *vtSyncBuf) Write(p []byte) (int, error) {
+	s.mu.Lock()
+	defer s.mu.Unlock()
+	return s.b.Write(p)
+}
+func (s *vtSyncBuf) String() string { s.mu.Lock(); defer s.mu.Unlock(); return s.b.String() }
